@@ -3,6 +3,8 @@
 # evidence.  Runs under /venv/bin/python (imports /repo's working tree).
 import os, sys, json, time, random, hashlib, subprocess, re, signal, fcntl, traceback, itertools
 
+import logging as _logging
+_logging.getLogger('pylatexenc').addHandler(_logging.NullHandler())   # main process: keep the library's warnings off stderr
 VERIF = os.path.dirname(os.path.dirname(os.path.abspath(__file__)))
 LEAN = os.path.join(VERIF, 'lean')
 DRIVER = os.path.join(LEAN, '.lake', 'build', 'bin', 'pylxdriver')
